@@ -39,7 +39,9 @@ where
         let mut return_vec = vec![];
         let mut next_level = vec![node_name.clone()].to_hashset();
         while !next_level.is_empty() {
-            let this_level = next_level;
+            // visit each level in name order, so that the returned order does not depend on hash iteration order
+            let mut this_level: Vec<T> = next_level.into_iter().collect();
+            this_level.sort();
             next_level = HashSet::new();
             for v in this_level {
                 if !seen.contains(&v) {
